@@ -44,7 +44,17 @@ def worlds():
 # worker
 # --------------------------------------------------------------------------
 
+def _private_stdout():
+    """The result channel must not be shared with the code under test: keep the original stdout for the protocol
+    and point fd 1 (and sys.stdout) at stderr, so that a print() inside the library cannot corrupt it."""
+    proto = os.fdopen(os.dup(1), "w")
+    os.dup2(2, 1)
+    sys.stdout = sys.stderr
+    return proto
+
+
 def worker_main():
+    proto = _private_stdout()
     job = json.load(sys.stdin)
     faulthandler.enable()
     faulthandler.dump_traceback_later(job.get("wall_cap", 3000), exit=True)
@@ -91,8 +101,8 @@ def worker_main():
         pass
     for k in ("states", "transitions", "seqs", "seqs_nontrivial"):
         agg[k] = sorted(agg[k])
-    sys.stdout.write(json.dumps(agg))
-    sys.stdout.flush()
+    proto.write(json.dumps(agg))
+    proto.flush()
 
 
 def slim(res):
@@ -464,4 +474,11 @@ def main(argv=None):
                          mutants=(a.tier == "thorough" and not a.no_mutants and not a.no_evidence))
     except core.HarnessError as e:
         print("HARNESS-ERROR %s" % (e,))
+        return 2
+    except SystemExit:
+        raise
+    except BaseException as e:   # noqa: BLE001 - an uncaught exception would exit 1, the VIOLATION code
+        import traceback
+
+        print("HARNESS-ERROR uncaught %s: %s" % (type(e).__name__, traceback.format_exc()[-1500:]))
         return 2
